@@ -802,3 +802,14 @@ PROPS["C01"]["kani_units"] = list(PROPS["C01"]["kani_units"]) + ["U49", "U22"]
 PROPS["C12"]["claim"] = PROPS["C12"]["claim"] + " HashColumn::flush (Kani, bounded) flushes the current index and every older index table still queued for migration (records applied during a growth write to them too)."
 PROPS["C01"]["claim"] = PROPS["C01"]["claim"] + " Keys (Kani, bounded lengths 32 / 33 / 40, contents and salt arbitrary): hash_key on a uniform-key column accepts every key of 32 bytes or more without panicking, keeps key bytes 16..32 and is a function of key and salt."
 PROPS["C01"]["does_not_cover"] = [x for x in PROPS["C01"]["does_not_cover"] if "hash_key" not in x] + ["hash_key for hashed (blake2) keys: a contract"]
+
+# ---------------------------------------------------------------- U50 (Verus: column administration keeps salt and version)
+UNIT_META["column_admin"] = {"functions": ["db::DbInner::open (fragment: the options recorded in the handle)", "db::Db::{add_column,drop_last_column,reset_column}"],
+                             "assumes": ["Db::precheck_column_operation (Db::open + drop: replay and removal of pending logs) is a contract returning what the handle recorded; that the handle records the stored salt is the fragment obligation U50.open",
+                                         "Options::write_metadata_with_version (format! / fs::write) is a contract requiring the stored salt and version; Options::write_metadata (which always writes the current version) must not be reachable",
+                                         "Db::remove_column_files / Column::drop_files (directory scan, file-name prefixes on str) are contracts: which files are deleted is not covered",
+                                         "Options is declared in the template with the three fields used (path, columns, salt); std::path::PathBuf is opaque"]}
+PROPS["C17"]["verus_units"] = list(PROPS["C17"].get("verus_units", [])) + ["column_admin"]
+PROPS["C17"]["technique"] = PROPS["C17"]["technique"] + "; Verus contracts on the real column-administration calls (metadata rewritten with the stored salt and version) and on the options recorded by DbInner::open (fragment)"
+PROPS["C17"]["claim"] = PROPS["C17"]["claim"] + " Column administration (Verus, unbounded over the column list; file operations by contract): add_column, drop_last_column and reset_column first open the database (replaying pending logs), rewrite the metadata with exactly the salt and the version the database has -- never with the requested salt or the current version -- and change the option list only at the column concerned; the handle DbInner::open returns records the stored salt."
+PROPS["C17"]["does_not_cover"] = ["metadata file round trip (as_string / from_string)", "files touched by DbInner::open before validation (directory, lock file)", "which files Column::drop_files deletes (file-name prefixes on str)", "migration::clear_column", "content of the other columns' files"]
